@@ -314,6 +314,38 @@ fn related(r: &mut Rng, a: &Option<Bundle>, pols: &[String], nms: &[String]) -> 
     Some(out)
 }
 fn upto(r: &mut Rng, q: u64) -> u64 { if q == u64::MAX { r.next() } else { r.range(0, q) } }
+/// the second operand derived from the first by one named structural relation (0..=17)
+fn derive(r: &mut Rng, a: &Option<Bundle>, rel: u64, pols: &[String], nms: &[String]) -> Option<Bundle> {
+    let base: Bundle = match a { Some(x) => x.clone(), None => vec![] };
+    let fresh_name = |r: &mut Rng, es: &Vec<(String, u64)>| -> Option<String> { for _ in 0..8 { let n = r.pick(nms).clone(); if !es.iter().any(|(m, _)| *m == n) { return Some(n); } } None };
+    let fresh_pol = |r: &mut Rng, ps: &Bundle| -> Option<String> { for _ in 0..8 { let p = r.pick(pols).clone(); if !ps.iter().any(|(q, _)| *q == p) { return Some(p); } } None };
+    let mut b = base.clone();
+    match rel {
+        0 => {}                                                                                   // identical
+        1 => { if let Some((_, es)) = b.first_mut() { if let Some(n) = fresh_name(r, es) { es.push((n, 1 + r.below(9))); } } }   // foreign name under a held policy
+        2 => { let held = base.iter().flat_map(|(_, es)| es.iter()).next().cloned();              // held name under a foreign policy
+               if let (Some(p), Some((n, q))) = (fresh_pol(r, &b), held) { b.push((p, vec![(n, q)])); } }
+        3 => { if let Some((_, es)) = b.first_mut() { if let Some((n, q)) = es.first().cloned() {  // a name that extends / shortens a held name
+                   let n2 = if n == "-" { "00".to_string() } else if n.len() >= 64 || r.chance(1, 2) { if n.len() > 2 { n[..n.len() - 2].to_string() } else { "-".to_string() } } else { format!("{}00", n) };
+                   if !es.iter().any(|(m, _)| *m == n2) { es.push((n2, q)); } } } }
+        4 => { if let Some((_, es)) = b.first_mut() { es.clear(); } }                              // empty Assets under a held policy
+        5 => { if let Some(p) = fresh_pol(r, &b) { b.push((p, vec![])); } }                        // empty Assets under a foreign policy
+        6 => { if let Some((_, es)) = b.first_mut() { if let Some(e) = es.first_mut() { e.1 = 0; } } }   // zero quantity for a held name
+        7 => { if let Some((_, es)) = b.first_mut() { if let Some(n) = fresh_name(r, es) { es.push((n, 0)); } } }   // zero quantity for a foreign name
+        8 => { return if a.is_none() { Some(vec![]) } else if base.is_empty() { None } else { Some(vec![]) }; }   // present-but-empty vs absent
+        9 => { for (_, es) in b.iter_mut() { for e in es.iter_mut() { e.1 = e.1.wrapping_add(1); } } }    // every quantity + 1
+        10 => { for (_, es) in b.iter_mut() { for e in es.iter_mut() { e.1 = e.1.wrapping_sub(1); } } }   // every quantity - 1
+        11 => { if let Some((_, es)) = b.last_mut() { if let Some(e) = es.last_mut() { e.1 = e.1.wrapping_add(1); } } }   // one quantity + 1
+        12 => { if !b.is_empty() { let i = r.below(b.len() as u64) as usize; b.remove(i); } }      // one policy removed
+        13 => { if let Some((_, es)) = b.first_mut() { if !es.is_empty() { let i = r.below(es.len() as u64) as usize; es.remove(i); } } }   // one name removed
+        14 => { for (_, es) in b.iter_mut() { for e in es.iter_mut() { e.1 = 0; } } }               // all quantities zero
+        15 => { if let Some(p) = fresh_pol(r, &b) { if let Some((_, es)) = base.first() { b = vec![(p, es.clone())]; } } }   // same names under another policy
+        16 => { for (_, es) in b.iter_mut() { for e in es.iter_mut() { e.1 = (u64::MAX - e.1).wrapping_add(r.below(3)); } } }   // complement to 2^64 - 1 .. 2^64 + 1
+        _ => { if let Some((_, es)) = b.last_mut() { if let Some(e) = es.last_mut() { e.1 = e.1.wrapping_sub(1); } } }   // one quantity - 1
+    }
+    if a.is_none() && b.is_empty() && rel != 8 { return None; }
+    Some(b)
+}
 fn coin_pair(r: &mut Rng) -> (u64, u64) {
     let a = r.u64_edge();
     let b = match r.below(6) { 0 => a, 1 => (u64::MAX - a).wrapping_add(r.below(3)).wrapping_sub(1), 2 => upto(r, a), 3 => a.wrapping_add(1), _ => r.u64_edge() };
@@ -591,7 +623,18 @@ fn gen(dir: &str) {
     }
     // --- Value
     let pols = policies();
-    for _ in 0..700 * scale {
+    // structural relations: every base bundle with each of the 18 derived partners, in both operand orders
+    for _ in 0..10 * scale {
+        let nms = names(&mut r);
+        let a = gen_bundle(&mut r, &pols, &nms);
+        for rel in 0..18u64 {
+            let b = derive(&mut r, &a, rel, &pols, &nms);
+            let (ca, cb) = match r.below(4) { 0 => (5, 5), 1 => (7, 3), 2 => (3, 7), _ => coin_pair(&mut r) };
+            emit(&mut out, format!("val {} {}", show_bundle(ca, &a), show_bundle(cb, &b)));
+            emit(&mut out, format!("val {} {}", show_bundle(cb, &b), show_bundle(ca, &a)));
+        }
+    }
+    for _ in 0..450 * scale {
         let nms = names(&mut r);
         let (ca, cb) = coin_pair(&mut r);
         let a = gen_bundle(&mut r, &pols, &nms);
